@@ -549,6 +549,14 @@ func checkC04(c *lib.Ctx) {
 					bad = true
 				}
 			}
+			if len(d.Fails) > 0 {
+				// the property's own oracles (Wait/Close return, no hang, no leak) failed on a run whose only
+				// "fault" is the clean end of the stream after the last reply: that is a violation, not a harness problem
+				for _, f := range d.Fails {
+					r.Fail(lib.Failure{Kind: "oracle", Key: f.Key + "/" + op.Name, What: f.What + " (run without injected fault: the stream ends cleanly after the last reply)", Input: c04Case{Op: op.Name, Fault: "none"}, Actual: f.Act})
+				}
+				continue
+			}
 			if bad {
 				r.Fail(lib.Failure{Kind: "tie", Key: "valid-run/" + op.Name, What: "scenario does not succeed without a fault (harness table or fake server wrong)", Input: c04Case{Op: op.Name, Fault: "none"}, Actual: d})
 				continue
